@@ -1,5 +1,6 @@
 import DnsVerif.Driver.Canon
 import DnsVerif.Lemmas.SafeRunMsg
+import DnsVerif.Lemmas.EncLimDns
 
 /-! Line-protocol driver for the model (see /verif/PROTOCOL.md): one op per stdin line, one result
 line per op. Built as `lean_exe driver` (nothing imported here touches Mathlib). -/
@@ -48,7 +49,9 @@ def rtDns (b : Bytes) : String :=
   | .error _ => "skip"
   | .ok (m, _) =>
     match encodeDns m with
-    | .error e => s!"encerr {pEErr e}"
+    | .error e =>
+      -- C02 only promises success for messages whose UNCOMPRESSED size fits: say when it does not
+      s!"encerr {pEErr e}" ++ (if 65535 < EncLim.msgSize m then " oversize" else "")
     | .ok b' =>
       match decodeDns b' with
       | .error e => s!"decerr {(pDErr e).takeWhile (· != ' ')}"
